@@ -23,7 +23,7 @@ open LoomVerif
 #print axioms ArcObj.drops_hb_final
 #print axioms ArcObj.inspect_acquires
 #print axioms Dep.arc
-#print axioms Dep.arc_asymmetric
+#print axioms Dep.arc_symmetric
 #print axioms ArcObj.sc_defs_spelled_out
 #print axioms ArcObj.clone_matches_SC
 #print axioms ArcObj.inc_matches_SC
